@@ -44,6 +44,8 @@ class Containers(object):
             x = np.array(mat, dtype=np.uint8)
         elif kind == 'array-float':
             x = np.array(mat, dtype=np.float64)
+        elif kind == 'array-float-F':
+            x = np.asfortranarray(np.array(mat, dtype=np.float64))
         else:
             path = os.path.join(self.dir, 's.fcs')
             dt = 'F' if kind == 'sample-float32' else 'I'
@@ -55,8 +57,10 @@ class Containers(object):
             with warnings.catch_warnings():
                 warnings.simplefilter('ignore')
                 x = FlowCal.io.FCSData(path)
-                if kind == 'sample-rfi':
+                if kind in ('sample-rfi', 'sample-rfi-F'):
                     x = FlowCal.transform.to_rfi(x)
+                if kind == 'sample-rfi-F':
+                    x = x[:, list(range(nc))]          # a channel-list selection: new, column-major buffer
         self.cache[key] = x
         return x
 
@@ -156,7 +160,11 @@ def main(chk, replay=None):
             tol = 2e-6 if kind == 'sample-float32' else 1e-12
             results = {}
             for stat in STATS:
+                before = np.asarray(x.view(np.ndarray)).tobytes()
                 lab, obs = check_call(stat, x, ch, exp, tol)
+                if np.asarray(x.view(np.ndarray)).tobytes() != before:
+                    lab = 'events-changed-by-the-call'
+                    C.cache.clear()
                 results[stat] = obs
                 chk.evaluations += 1
                 if lab is not None:
